@@ -19,7 +19,10 @@ RULE = (
     "Dirichlet face, all-Neumann) and a linear field p = c + a.x. Oracle (analytic): flux p_c + bound_flux bc = "
     "-(K grad p).n_f on every face, bound_pressure_cell p_c + bound_pressure_face bc = p(x_f) on every boundary face, "
     "and for constant p (Dirichlet data c, Neumann data 0) zero flux; Dirichlet data = p(x_f), Neumann data = outward "
-    "exact flux; tolerance 1e-9 x magnitude of the summed terms. Non-trivial = Dirichlet and Neumann faces both present "
+    "exact flux. Reuse class (a quarter of the cases): one Mpfa object discretises, the same grid / tensor / bc "
+    "objects are edited in place (per-axis scaling or respacing of the nodes + compute_geometry(), tensor values, "
+    "boundary types), the same object discretises again (same data dictionary in half of the cases) and all "
+    "assertions are made on the second result; tolerance 1e-9 x magnitude of the summed terms. Non-trivial = Dirichlet and Neumann faces both present "
     "and (grid not axis-aligned Cartesian/tensor, or K anisotropic); distinct = hash of spec."
 )
 BUDGET = {"quick": {"cases": 400, "seconds": 40}, "thorough": {"cases": 20000, "seconds": 1200}}
@@ -37,19 +40,25 @@ ASSUMPTIONS = [
     "Neumann data is the outward integrated flux, Dirichlet data the face-centre value",
 ]
 REQUIRED = {"dim2": 0.2, "dim3": 0.2, "kind-tri": 0.05, "kind-tet": 0.05, "perturbed": 0.1, "affine": 0.03,
-            "K-full": 0.15, "K-diag": 0.15, "bc-mixed": 0.3, "bc-all-neu": 0.03, "embedded": 0.1}
+            "K-full": 0.15, "K-diag": 0.15, "bc-mixed": 0.3, "bc-all-neu": 0.03, "embedded": 0.1,
+            "reuse": 0.1, "reuse-moved-geometry": 0.05, "reuse-changed-tensor": 0.03, "reuse-changed-bc": 0.03}
 
 RTOL = 1e-9
 ATOL = 1e-14  # data are O(1): guards against denormal fields produced by shrinking
 
 
+@st.composite
+def _spec(draw, tier):
+    grid = draw(grid_spec(dims=(2, 3), poly=False, max_amp=0.15, max_n3=2, max_n=4, gmsh=(tier == "thorough")))
+    s = {"grid": grid, "K": draw(fv.spd_spec()), "bc": draw(fv.bc_spec()), "field": draw(fv.field_spec()), "reuse": None}
+    # reuse class: one Mpfa object discretises twice, the inputs are edited in place in between (see gen/fv.py)
+    if draw(st.integers(0, 3)) == 0:
+        s["reuse"] = draw(fv.reuse_spec(grid))
+    return s
+
+
 def strategy(tier):
-    return st.fixed_dictionaries({
-        "grid": grid_spec(dims=(2, 3), poly=False, max_amp=0.15, max_n3=2, max_n=4, gmsh=(tier == "thorough")),
-        "K": fv.spd_spec(),
-        "bc": fv.bc_spec(),
-        "field": fv.field_spec(),
-    })
+    return _spec(tier)
 
 
 def warmup():
@@ -83,9 +92,24 @@ def check_linear_exactness(g, M, Km, fs, is_dir, tag=""):
 def check(spec):
     g = build_grid(spec["grid"])
     meta = grid_meta(spec["grid"])
+    import porepy as pp
+
     K, Km, _ = fv.build_tensor(spec["K"], g)
     bc, is_dir = fv.build_bc(spec["bc"], g)
-    M, _ = fv.discretize_flow(g, K, bc, "mpfa")
+    ts, bs = spec["K"], spec["bc"]
+    rs = spec.get("reuse")
+    reuse_labels = []
+    if rs:
+        # first discretisation, in-place edits of grid / tensor / bc, second discretisation with the same Mpfa
+        # object; all assertions below are made on the second result with the inputs as they are then
+        discr = pp.Mpfa(fv.KW)
+        _, data = fv.discretize_flow(g, K, bc, "mpfa", discr=discr)
+        ts, bs, reuse_labels = fv.apply_reuse(g, K, bc, ts, bs, rs)
+        Km = fv.tensor_matrix(ts)
+        is_dir = fv.dirichlet_mask(bs, g)
+        M, _ = fv.discretize_flow(g, K, bc, "mpfa", discr=discr, data=data if rs["same_data"] else None)
+    else:
+        M, _ = fv.discretize_flow(g, K, bc, "mpfa")
     fs = spec["field"]
 
     # (1) exact flux on every face
@@ -108,8 +132,8 @@ def check(spec):
     require_close(q0, np.zeros_like(q0), "constant-zero-flux", rtol=RTOL, atol=ATOL, scale=sc0,
                   what="flux of a constant pressure")
 
-    labels = list(meta["labels"]) + ["K-" + spec["K"]["kind"], bc_label(is_dir, g)]
+    labels = list(meta["labels"]) + ["K-" + ts["kind"], bc_label(is_dir, g)] + reuse_labels
     gs = spec["grid"]
     non_cart = gs["kind"] not in ("cart", "tensor") or gs.get("pamp", 0) > 0 or bool(gs.get("affine")) or bool(gs.get("rigid"))
-    nontrivial = "bc-mixed" in labels and (non_cart or spec["K"]["kind"] != "iso")
+    nontrivial = "bc-mixed" in labels and (non_cart or ts["kind"] != "iso")
     return {"labels": labels, "nontrivial": bool(nontrivial)}
